@@ -361,18 +361,53 @@ def check_path_scheme(ck):
     ck.ob(R, ls.key(None, "skip-versions"), skip_ok == len(ls.fi.nested) and skip_ok > 0,
           "listings skip the version directories" if skip_ok == len(ls.fi.nested) and skip_ok > 0 else
           "a listing walks into %r: version objects appear as keys" % vlit, ls.where())
+    check_escape_inverse(ck, R)
+
+
+def check_escape_inverse(ck, R):
+    ls = FA(ck, FSDS + ".list_keys_nonversioned")
     ek = FA(ck, FSDS + "._escape_key")
     rep = ek.one(ek.calls("replace"), "replace call")
     esc = [A.const_str(a) for a in rep.args]
     from urllib.parse import unquote as _uq
     oke = len(esc) == 2 and esc[0] == ":" and esc[1] is not None and _uq(esc[1]) == ":"
-    uses_unquote = any(A.call_attr(c) == "unquote" for fn in ls.fi.nested.values() for c in A.body_calls(fn.node))
-    ck.ob(R, ek.key(None, "escape"), oke and uses_unquote, "':' is escaped as a percent code that the listing unquotes" if oke and uses_unquote else
-          "key escaping %s is not inverted by the listing (unquote)" % esc, ek.where())
+    # the listing must apply the exact inverse: urllib.parse.unquote (directly or through a helper of
+    # this class); unquote_plus also rewrites '+', which the escape never produces
+    decoders = set()
+    def collect(fn_node, cls):
+        for c in A.body_calls(fn_node):
+            nm = A.call_attr(c)
+            if nm in ("unquote", "unquote_plus", "unquote_to_bytes"):
+                decoders.add(nm)
+            elif isinstance(c.func, ast.Attribute) and isinstance(c.func.value, ast.Name) and c.func.value.id == "self" and nm in cls.methods and nm != "_escape_key":
+                helper = cls.methods[nm]
+                if any(A.call_attr(x) in ("unquote", "unquote_plus") for x in A.body_calls(helper.node)):
+                    collect(helper.node, cls)
+    for fn in ls.fi.nested.values():
+        collect(fn.node, ls.fi.cls)
+    ok_inv = oke and decoders == {"unquote"}
+    ck.ob(R, ek.key(None, "escape"), ok_inv, "':' is escaped as a percent code that the listing decodes with unquote (the exact inverse)" if ok_inv else
+          "key escaping %s is not inverted exactly by the listing (decoders used: %s): names containing '+' (versions like 1.4.0+build.7) come back altered"
+          % (esc, sorted(decoders) or "none"), ek.where())
+
+
+def check_override_writes(ck, R):
+    ck.rule(R, "reads return the last value written: a memoize under a key override always writes the new bytes (the "
+               "'already stored, reuse it' shortcut applies to content-addressed keys only)", 2)
+    from .c07 import _check_dedupe, BLOB
+    fa = FA(ck, BLOB + ".store")
+    outs = [c for c in fa.calls("output") if A.dotted(A.call_recv(c)) == "data_source"]
+    exs = [c for c in fa.calls("exists_nonversioned")]
+    if len(exs) != 1 or not outs:
+        ck.ob(R, fa.key(None, "override-always-writes"), len(exs) == 0 and bool(outs), "no reuse shortcut at all" if len(exs) == 0 and outs else
+              "BlobStrategy.store has %d existence tests / %d writes" % (len(exs), len(outs)), fa.where())
+        return
+    _check_dedupe(ck, fa, exs[0], outs, R)
 
 
 def check(ck):
     cm = CacheModel(ck)
+    check_override_writes(ck, "C05.R6")
     check_keying(ck, "C05.R1")
     check_forget_scope(ck, cm)
     check_queries_effect_free(ck, "C05.R3")
